@@ -44,4 +44,8 @@ def gen(tier, rng):
     yield nodegen.c15_multi_interval_script(rng, "interval-multi-ka", combos[:20], own=(300, "1000"))
     yield nodegen.c15_learned_timeout_script(rng, "learned-timeout")
     yield nodegen.keepalive_only_script(rng, "keepalive-only")
+    # a peer restarts on the same address advertising a much shorter timeout: the announcement interval must follow at once
+    yield nodegen.reconfig_restart_script(rng, "restart-shorter-timeout", (nodegen.CHACHA, nodegen.CHACHA), (None, nodegen.CHACHA), pt_after=125)
+    # unencrypted meshes announce like all others: nobody is timed out over several peer timeouts
+    yield nodegen.plain_long_script(rng, "plain-long", 25, 80)
     yield nodegen.announce_script(rng, "announce", 100 if thorough else 40)          # keepalives / node information refresh the expiry; advertised timeouts vary
